@@ -45,7 +45,7 @@ REAL_VS_STUB = {
 }
 EXPECTED_PROBES = ('is_leaf', 'flatten_func', 'unflatten_func', 'map_fn', 'key.__hash__', 'key.__lt__', 'key.__eq__',
                    'meta.__ne__', 'meta.__repr__', 'f_node', 'f_leaf', 'leaves.__next__',
-                   'children.__next__', 'nt.__new__') + tuple('op:' + n for n in OP_NAMES)
+                   'children.__next__', 'nt.__new__', 'dc.__post_init__') + tuple('op:' + n for n in OP_NAMES)
 # (metadata __eq__ / __hash__ are not in the list: the engine compares custom metadata with `!=` only
 #  (richcomparison.cpp) and deliberately does not hash it (hashing.cpp:42), so those two can never fire)
 
